@@ -74,6 +74,10 @@ class Scenario:
         for i in range(k + 1):
             # chains of subclasses (so that call_next has somewhere to go) mixed with unrelated classes
             base = (self.classes[rng.randrange(i)],) if i and i < k and rng.random() < 0.6 else ()
+            if i == k and i and bad_kind == "abc_hook" and rng.random() < 0.6:
+                # the class the hook recognises is also a subclass of a class with a valid method: a resolution that
+                # loses the hook's type still finds something (and would cache it)
+                base = (self.classes[rng.randrange(i)],)
             self.classes.append(type(f"B{i}", base, {}))
         self.raise_flag = [False]
         glb = {"call_next": call_next, "recurse": recurse, "__name__": "verif_build"}
@@ -119,6 +123,21 @@ class Scenario:
             self.bad = mk_fn("bad", "return recurse(x)", f"x: B{k}", glb, readable=False)
         elif bad_kind == "hook":
             self.bad = mk_fn("bad", "return ('hooked',)", "x: P", glb)
+        elif bad_kind == "abc_hook":
+            # an abstract base class whose __subclasshook__ raises (anything but TypeError) while the flag is set
+            import abc
+
+            target = self.classes[k]
+
+            class Q(abc.ABC):
+                @classmethod
+                def __subclasshook__(cls, C):
+                    if flag[0]:
+                        raise RuntimeError("hook failure")
+                    return True if C is target else NotImplemented
+
+            glb["Q"] = Q
+            self.bad = mk_fn("bad", "return ('hooked',)", "x: Q", glb)
         self.order = list(range(k))
         if self.bad is not None:
             self.order.insert(bad_pos, "bad")
@@ -210,7 +229,7 @@ def same(a, b):
 
 
 def run_natural(rng, out, orc, known):
-    kinds = ["names", "positions", "call_next", "nosource", "hook"]
+    kinds = ["names", "positions", "call_next", "nosource", "hook", "abc_hook"]
     kind = rng.choice(kinds)
     k = rng.randint(1, 4)
     pos = rng.randint(0, k)
@@ -218,7 +237,7 @@ def run_natural(rng, out, orc, known):
     sc = Scenario(rng, k, kind, pos)
     probes = sc.probes()
     wit = {"kind": "build", "bad_kind": kind, "k": k, "bad_pos": pos, "mode": mode}
-    hook = kind == "hook"
+    hook = kind in ("hook", "abc_hook")
     if mode == "first":
         ov = sc.build([t for t in sc.order if True]) if kind not in ("names", "positions") else None
         if ov is None:
@@ -256,6 +275,17 @@ def run_natural(rng, out, orc, known):
         if not same(a, r):
             known(o, f"D15:{mode}-{kind}" if False else "D15:half-built-function-in-service", {**wit, "probe": p_i, "got": a, "fresh": r})
             break
+    # a type hook that raised and works again: the method it guards is an ordinary method now, and nothing computed
+    # while the hook was failing may survive (no partial candidate set cached by the failed resolutions)
+    if hook and "bad" in tags_now:
+        ref_full = reference(sc, tags_now, probes, False)
+        got_full = [call(ov, p) for p in probes]
+        o["n"] += 1
+        o["nontrivial"] += 1
+        for p_i, (a, r) in enumerate(zip(got_full, ref_full)):
+            if not same(a, r):
+                o["viol"].append({"law": "after a type hook that raised works again, calls do not follow the complete set of registered methods", "probe": p_i, "got": a, "fresh": r, **wit})
+                break
     # after removing the offending method the function must work normally
     if "bad" in tags_now:
         try:
